@@ -32,12 +32,22 @@ META = {
 
 REPLAY_KEY = "C06:crash-before-reorg-marker-replay-does-not-reorganise"
 TAIL6_KEY = "C06:replay-differs-after-failed-reorg-of-orphan-chain"
+RCMP_KEY = "C06:partial-flush-of-RecoverChainMapping-bulk-unloadable"
 CLS = {"latest": 1, "height": 2, "blk": 3, "tx": 4, "rcpt": 5, "marker": 6, "statemarker": 7}
 
 
 def corpus_cases():
     d = os.path.join(vf.VERIF, "corpus", "C06")
     return [json.load(open(os.path.join(d, f))) for f in sorted(os.listdir(d)) if f.endswith(".json")]
+
+
+def crash_opts(ctx, c, full=False):
+    """partial = cuts inside bulks, recrash = second crash during the recovery itself"""
+    if full or ctx.tier != "quick":
+        c["partial"], c["recrash"] = "all", "ops"
+    else:
+        c["partial"], c["recrash"] = "ends", "units"
+    return c
 
 
 def gen_cases(ctx):
@@ -48,7 +58,7 @@ def gen_cases(ctx):
     for j, (p, la, lb) in enumerate(geo if quick else geo + [(2, 2, 3), (2, 3, 4), (0, 3, 4), (1, 3, 5)]):
         blocks = cd.two_branches(p, la, lb, shared=(j % 2 == 0))
         names = [b["name"] for b in blocks]
-        cases.append({"id": "g%d" % j, "naccts": 3, "blocks": blocks, "arrivals": list(names), "mode": "crash"})
+        cases.append(crash_opts(ctx, {"id": "g%d" % j, "naccts": 3, "blocks": blocks, "arrivals": list(names), "mode": "crash"}))
         a_first = [n for n in names if n[0] in "pA"]
         b_names = [n for n in names if n[0] == "B"]
         cases.append({"id": "g%dr" % j, "naccts": 3, "blocks": blocks, "arrivals": a_first + list(reversed(b_names)), "mode": "crash"})
@@ -57,7 +67,8 @@ def gen_cases(ctx):
         for b in blocks:                          # every block carries a tx: empty test-genesis root has no state marker
             if not b["txs"]:
                 b["txs"] = cd.rnd_txs(rng, 1, 1)
-        cases.append({"id": "r%d" % i, "naccts": 3, "blocks": blocks, "arrivals": cd.rnd_arrivals(rng, blocks, dup=0.0), "mode": "crash"})
+        c = {"id": "r%d" % i, "naccts": 3, "blocks": blocks, "arrivals": cd.rnd_arrivals(rng, blocks, dup=0.0), "mode": "crash"}
+        cases.append(crash_opts(ctx, c) if (not quick or i < 2) else c)
     return cases
 
 
@@ -129,11 +140,14 @@ def run(ctx):
     corpus = corpus_cases()
     for c in corpus:
         c["mode"] = "crash"
+        crash_opts(ctx, c, full=True)          # every inner cut and every second-level op cut on the corpus
     cases = corpus + gen_cases(ctx)
     outs = cd.run_engine(ctx, eng, cases, "c06")
     fails = []
     npoints = 0
     nbenign = [0]
+    nrecrash = [0]
+    ninner = 0
     kinds = set()
     for c, o in zip(cases, outs):
         units = o["units"]
@@ -141,6 +155,8 @@ def run(ctx):
         for kr in o["crash"]:
             npoints += 1
             k = kr["k"]
+            if kr.get("p", 0):
+                ninner += 1
             what = None
             if kr["init_panic"]:
                 what = ("C06:init-panic", "Init panics after crash at unit %d: %s" % (k, kr["init_panic"][:80]))
@@ -166,7 +182,28 @@ def run(ctx):
                 else:
                     what = ("C06:not-converged", "replay after crash at unit %d does not reach the crash-free final state" % k)
             if what:
-                fails.append((what[0], what[1], {"case": c, "k": k, "crash": kr}))
+                fails.append((what[0], what[1], {"case": c, "k": k, "p": kr.get("p", 0), "crash": {x: y for x, y in kr.items() if x != "recrash"}}))
+            if kr.get("recrash_error"):
+                fails.append(("C06:recrash-start", "journaled second start failed after crash at unit %d: %s" % (k, kr["recrash_error"][:80]),
+                              {"case": c, "k": k}))
+            for rr in kr.get("recrash") or []:
+                nrecrash[0] += 1
+                w2 = None
+                rcm_inner = rr.get("p2", 0) > 0 and any(x.startswith("-height") for x in rr.get("unit2_classes", []))
+                if rr["init_panic"]:
+                    w2 = ((RCMP_KEY if rcm_inner else "C06:recrash-init-panic"),
+                          "second crash (unit %d op %d of the recovery after first crash at unit %d/%d): node cannot start: %s"
+                          % (rr["k2"], rr.get("p2", 0), k, kr.get("p", 0), rr["init_panic"][:80]))
+                elif rr["recover_err"] and rr["recover_err"] != (kr.get("recover2") or {}).get("recover_err", ""):
+                    w2 = ("C06:recrash-recover-error", "Recover fails after a second crash (k=%d,k2=%d): %s" % (k, rr["k2"], rr["recover_err"][:80]))
+                elif rr["pred"]:
+                    w2 = ("C06:recrash-inv:" + rr["pred"][0].split(" ")[0], "invariant fails after a second crash (k=%d,k2=%d,p2=%d): %s" % (k, rr["k2"], rr.get("p2", 0), rr["pred"][0]))
+                elif rr["marker_after"]:
+                    w2 = ("C06:recrash-marker-left", "marker left after a second crash (k=%d,k2=%d)" % (k, rr["k2"]))
+                elif not rr["same_final"]:
+                    w2 = ("C06:recrash-not-idempotent", "recovery after a second crash (k=%d,k2=%d,p2=%d) ends in a different store" % (k, rr["k2"], rr.get("p2", 0)))
+                if w2:
+                    fails.append((w2[0], w2[1], {"case": c, "k": k, "p": kr.get("p", 0), "recrash": rr}))
         for u in units:
             kinds.add((u["store"], u["kind"], tuple(sorted(set(u["classes"])))))
     # write-unit sequence vs model journal
@@ -188,13 +225,14 @@ def run(ctx):
         corr_broken = corr_broken or ("model could not be evaluated", detail)
     elif bad:
         corr_broken = corr_broken or ("model/implementation differ on the crash-free trace", {"case": cases[bad[0]]})
-    ctx.cov["evaluations"] = npoints
+    ctx.cov["evaluations"] = npoints + nrecrash[0]
     ctx.cov["traces_validated_against_impl"] = len(cases)
     ctx.cov["distinct_nontrivial"] = len(kinds)
     ctx.cov["rule"] = "crash points = every prefix of the joint journal of every scenario (linear, side, orphan runs, reorganisations of depth 1..4); distinct = distinct (store, kind, key-class set) write-unit shapes cut"
     ctx.cov["input_distribution"] = {"scenarios": len(cases), "corpus": len(corpus), "crash_points": npoints,
                                      "units": sum(len(o["units"]) for o in outs), "f7_fixed_in_source": f7_fixed,
-                                     "converged_modulo_extra_side_blocks": nbenign[0]}
+                                     "converged_modulo_extra_side_blocks": nbenign[0],
+                                     "inner_bulk_cuts": ninner, "second_level_crash_points": nrecrash[0]}
     ctx.cov["exhaustive"] = True   # every journal prefix of the listed scenarios
     ctx.sample({"case": cases[0]["id"], "units": outs[0]["units"][:6]})
     seen = set()
